@@ -22,6 +22,7 @@ import Driver.MfHc4
 import Driver.MfBt4
 import Driver.EncFast
 import Driver.Writers
+import Driver.MtTrace
 /-! Request handlers: each maps a parsed request to the canonical answer line. -/
 namespace Driver
 open LzmaVerif
@@ -426,6 +427,8 @@ def handleTwin (cmd : String) (a : Args) : String :=
 
 def handle (cmd : String) (a : Args) : String :=
   match cmd with
+  | "mt.trace" => handleMtTrace a
+  | "mt.wtrace" => handleMtWTrace a
   | "twin.extend" | "twin.norm" | "twin.reject" | "twin.direct" => handleTwin cmd a
   | "encfast.parse" | "lzma.parse" => handleEncFast cmd a
   | "lzipw.fast" | "lzmaw.fast" => handleWriters cmd a
